@@ -110,6 +110,8 @@ def chunksAux : Nat → Bytes → Bytes → Option (Bytes × Bytes)
       -- to longer size lines, which is a safe refusal: such streams are outside the comparison
       -- blanks IN FRONT of the size are not part of any reading of the grammar (chunk-size = 1*HEXDIG): no claim
       if line.head?.any (fun c => c == 32 || c == 9) then none else
+      -- HTAB after the size (hertz skips SP only and answers 400: a safe refusal) and chunk extensions are not claimed either
+      if line.any (fun c => c == 9) then none else
       if (trimOWS line).length > 15 then none else
       match parseHex (trimOWS line) with
       | none => none
